@@ -6,6 +6,15 @@ FIRST = {  # first result before the check was strengthened (caught unless liste
  "C10_1": "missed", "C10_2": "missed", "C10_3": "missed", "C15_2": "missed", "C15_3": "missed", "C06_1": "machinery error", "C06_2": "missed", "C06_3": "missed",
  "C18_2": "missed", "C18_3": "missed", "C17_2": "missed (vacuous simulation)", "C20_1": "missed", "C19_1": "missed", "C19_2": "missed", "C19_3": "missed",
  "C07_1": "missed", "C07_2": "missed", "C07_3": "missed", "C05_2": "missed", "C01_1": "missed", "C01_3": "missed", "C08_2": "check hung"}
+# second round (seeds _4.._6, written by fresh agents told to avoid the first round's areas): caught at first run -
+ROUND2_CAUGHT = {"C10_4", "C09_4", "C02_5", "C02_6", "C01_4", "C07_4", "C03_4", "C03_6", "C08_5", "C08_6", "C16_6", "C20_4", "C20_5", "C15_4", "C14_4", "C14_6",
+                 "C12_4", "C12_5", "C19_4", "C19_5", "C19_6", "C13_4", "C11_5", "C11_6"}
+for _p in range(1, 21):
+    for _i in (4, 5, 6):
+        _n = f"C{_p:02d}_{_i}"
+        if _n not in ROUND2_CAUGHT:
+            FIRST.setdefault(_n, "missed")
+FIRST["C16_5"] = "missed (then a harness crash)"
 rows = []
 for d in sorted(glob.glob("/verif/seeded/*/")):
     name = os.path.basename(d.rstrip("/"))
@@ -32,4 +41,7 @@ print("| Seed | Change (from the author's notes) | First result | Now | Violatio
 print("|---|---|---|---|---|")
 for r in rows:
     print(f"| {r[0]} | {r[1]} | {r[3]} | {r[2]} | `{r[4]}` |")
-print(f"\n{sum(1 for r in rows if r[2] == 'caught')} of {len(rows)} seeded changes are caught by the quick tier of the property's check.")
+r1 = [r for r in rows if int(r[0].split("_")[1]) <= 3]
+r2 = [r for r in rows if int(r[0].split("_")[1]) > 3]
+print(f"\nFirst round: {sum(1 for r in r1 if r[3] == 'caught')} of {len(r1)} caught at the first run; second round: {sum(1 for r in r2 if r[3] == 'caught')} of {len(r2)} caught at the first run. "
+      f"After strengthening {sum(1 for r in rows if r[2] == 'caught')} of {len(rows)} seeded changes are caught by the quick tier of the property's check.")
